@@ -15,7 +15,7 @@ import time
 ID = sys.argv[2]
 PROP = ID[:3]                       # C01b -> property C01 (second independent change for the same property)
 checks = sys.argv[3:] or [PROP]
-rnd = {"": "", "b": "2", "c": "4", "d": "5", "e": "6", "f": "7", "n": "n"}[ID[3:]]      # Cxxb rounds 2/3, Cxxc round 4, Cxxn property-preserving variations
+rnd = {"": "", "b": "2", "c": "4", "d": "5", "e": "6", "f": "7", "g": "8", "n": "n"}[ID[3:]]      # Cxxb rounds 2/3, Cxxc round 4, Cxxn property-preserving variations
 src = "/tmp/seeded_out%s/%s" % (rnd, ID)
 wt = "/tmp/wt%s/%s" % (rnd, ID)
 dst = "/verif/seeded/%s" % ID
